@@ -44,7 +44,9 @@ def st_case(draw):
             "tie": draw(st.sampled_from([None, None, None, "contact_point", "baseline"])),
             # the expression is a product (f*E) or a sum of two terms (a + b*E)
             "tie_form": draw(st.sampled_from(["product", "sum"])),
-            "prior_fixed": draw(st.booleans())}
+            "prior_fixed": draw(st.booleans()),
+            # an E(delta) scan (Indentation.compute_emodulus_mindelta) after the fit
+            "scan_after": draw(st.sampled_from([False, False, False, True, False, False, False, False]))}
     if src["kind"] == "synth" and draw(st.integers(0, 5)) == 0:
         # a record with three segments (approach / pause / retract): any of them may be fitted
         src["curve"]["n_pause"] = draw(st.integers(20, 60))
@@ -163,25 +165,35 @@ def check_case(case, ctx):
     partial = bool(np.any((w[seg] > 0) & (w[seg] < 1)))
     ctx.note_case(case, nontrivial=bool(partial and (~seg).any()) or not wcp and bool((~seg).any()),
                   classes=classes + ["successful"] + (["partially_weighted"] if partial else []))
-    # fit column
-    ctx.check(np.all(np.isnan(fit[~seg])) and np.all(np.isnan(res[~seg])), "off-segment-not-nan", desc,
-              "fit / residual columns hold numbers outside the fitted segment")
-    ctx.check(not np.any(np.isnan(fit[seg])), "segment-has-nan", desc, "fit column is NaN inside the fitted segment")
-    want = expected_fit(cfg["model_key"], pf, x[seg] * k, k)
-    err = np.max(np.abs(fit[seg] - want))
-    ctx.check(err <= 1e-9 * frange, "fit-column-vs-parameters", desc,
-              f"max |fit - model(params_fitted)| = {err:.3e}, force range {frange:.3e}, k={k}")
-    # residual column
-    wres = (y[seg] - fit[seg]) * w[seg]
-    err = np.max(np.abs(res[seg] - wres))
-    ctx.check(err <= 1e-9 * frange, "residual-column", desc,
-              f"max |residuals - (data-fit)*w| = {err:.3e}, force range {frange:.3e}, weight_cp={wcp}, k={k}")
-    # chi square
-    chi = float(np.sum(res[rng] ** 2))
-    floor = (1e-14 * frange) ** 2 * max(int(rng.sum()), 1)   # below round-off of the data themselves
-    ctx.check(abs(chi - fp["chi_sqr"]) <= 1e-9 * max(chi, fp["chi_sqr"]) + floor, "chi-square", desc,
-              f"chi_sqr={fp['chi_sqr']!r} but sum(residuals[fit range]^2)={chi!r}")
-    ctx.check(np.all(rng <= seg), "range-outside-segment", desc, "fit range includes points of the other segment")
+
+    def consistency(desc):
+        """columns, chi-square and range against the reported parameters (read from the curve at call time)"""
+        fp = idnt.fit_properties
+        pf = fp["params_fitted"]
+        fit, res, rng = idnt["fit"], idnt["fit residuals"], idnt["fit range"]
+        cp = pf["contact_point"].value
+        w = np.minimum(np.abs(k * (x - cp)) / wcp, 1.0) if wcp else np.ones_like(x)
+        # fit column
+        ctx.check(np.all(np.isnan(fit[~seg])) and np.all(np.isnan(res[~seg])), "off-segment-not-nan", desc,
+                  "fit / residual columns hold numbers outside the fitted segment")
+        ctx.check(not np.any(np.isnan(fit[seg])), "segment-has-nan", desc, "fit column is NaN inside the fitted segment")
+        want = expected_fit(cfg["model_key"], pf, x[seg] * k, k)
+        err = np.max(np.abs(fit[seg] - want))
+        ctx.check(err <= 1e-9 * frange, "fit-column-vs-parameters", desc,
+                  f"max |fit - model(params_fitted)| = {err:.3e}, force range {frange:.3e}, k={k}")
+        # residual column
+        wres = (y[seg] - fit[seg]) * w[seg]
+        err = np.max(np.abs(res[seg] - wres))
+        ctx.check(err <= 1e-9 * frange, "residual-column", desc,
+                  f"max |residuals - (data-fit)*w| = {err:.3e}, force range {frange:.3e}, weight_cp={wcp}, k={k}")
+        # chi square
+        chi = float(np.sum(res[rng] ** 2))
+        floor = (1e-14 * frange) ** 2 * max(int(rng.sum()), 1)   # below round-off of the data themselves
+        ctx.check(abs(chi - fp["chi_sqr"]) <= 1e-9 * max(chi, fp["chi_sqr"]) + floor, "chi-square", desc,
+                  f"chi_sqr={fp['chi_sqr']!r} but sum(residuals[fit range]^2)={chi!r}")
+        ctx.check(np.all(rng <= seg), "range-outside-segment", desc, "fit range includes points of the other segment")
+
+    consistency(desc)
     # parameters
     for name, (v0, mn, mx, vary, expr) in init_state.items():
         p = pf[name]
@@ -209,6 +221,18 @@ def check_case(case, ctx):
     # arguments untouched
     ctx.check(fitgen.pstate(pi) == init_state, "initial-parameters-modified", desc,
               "the caller's initial parameter object changed during fit_model")
+    # the E(delta) scan is an additional output: what the curve reports afterwards is still consistent
+    if case["init"].get("scan_after") and not cfg.get("optimal_fit_edelta"):
+        with fitgen.MinimizeRecorder() as rec, fitgen.catch() as box:
+            idnt.compute_emodulus_mindelta()
+        if box["exc"] is None and not rec.aborted:
+            ctx.event("consistency_after_scan")
+            d2 = dict(desc, after="compute_emodulus_mindelta")
+            if ctx.check(idnt.fit_properties.get("success") is True and "params_fitted" in idnt.fit_properties,
+                         "results-lost-by-scan", d2,
+                         f"after the scan: success={idnt.fit_properties.get('success')!r}, params_fitted "
+                         f"{'present' if 'params_fitted' in idnt.fit_properties else 'missing'}, columns still filled"):
+                consistency(d2)
 
 
 def run(ctx):
